@@ -9,13 +9,13 @@
     [st_supply] is the model's bank supply (mint / burn), [st_win] the ghost "incoming amount
     completed since the last window reset".  Asset parameters do not change inside a history
     (there is no parameter-update operation; [reachable_invariant] states [st_params] stays [P]). *)
-From Irismod Require Import Htlc.Model Htlc.Proofs Htlc.Examples Htlc.Check Htlc.Sound Htlc.Passes Htlc.PassesEx Htlc.ParamChange.
+From Irismod Require Import Htlc.Model Htlc.Proofs Htlc.Examples Htlc.Check Htlc.Sound Htlc.Passes Htlc.PassesEx Htlc.ParamChange Htlc.CoreHist.
 
 (** ** Inv_C04 holds in every reachable state (induction over the history: [Inv] holds at
     genesis and is preserved by every message and every block boundary) *)
 Theorem inv_C04_reachable :
   forall (P : list aparam) (b : ledger) (t0 : Z) (ops : list op),
-    params_ok P -> escrow_empty b -> Forall wf_op ops ->
+    params_ok P -> escrow_empty b -> wf_run (init P b t0) ops ->
     Inv_C04 (reachable P b t0 ops).
 Proof. intros P b t0 ops HP HE W. exact (Inv_C04_of_Inv _ (proj1 (reach_inv P b t0 ops HP HE W))). Qed.
 Print Assumptions inv_C04_reachable.
@@ -25,7 +25,7 @@ Proof. exact init_inv. Qed.
 Print Assumptions inv_C04_initial.
 
 Theorem inv_C04_step :
-  forall s o, Inv s -> Strict s -> wf_op o -> Inv (step s o) /\ Strict (step s o) /\ st_params (step s o) = st_params s.
+  forall s o, Inv s -> Strict s -> wf_op s o -> Inv (step s o) /\ Strict (step s o) /\ st_params (step s o) = params_after s o.
 Proof. exact step_inv. Qed.
 Print Assumptions inv_C04_step.
 
@@ -115,8 +115,7 @@ Proof. vm_compute. reflexivity. Qed.
     satisfies the invariant, hence all of the above. *)
 Theorem c04_checked_states_satisfy_invariant :
   forall (k : case) (n : nat), hyps_b k = true ->
-    Inv (case_state k n) /\ Strict (case_state k n) /\ Inv_C04 (case_state k n)
-    /\ st_params (case_state k n) = k_params k.
+    Inv (case_state k n) /\ Strict (case_state k n) /\ Inv_C04 (case_state k n).
 Proof. exact checked_states_satisfy_invariant. Qed.
 Print Assumptions c04_checked_states_satisfy_invariant.
 
@@ -142,10 +141,45 @@ Print Assumptions inv_core_of_invariant.
 (** the limit inequalities survive a change whose new limits cover the current usage ([covers]; e.g.
     limits only raised: [raise_covers]); then the whole invariant holds again, for every history after it *)
 Theorem inv_C04_after_compatible_param_change :
-  forall s P' ops, Inv s -> Strict s -> same_denoms (st_params s) P' -> covers s P' -> Forall wf_op ops ->
-    Inv (run (set_params s P') ops) /\ Strict (run (set_params s P') ops) /\ st_params (run (set_params s P') ops) = P'.
+  forall s P' ops, Inv s -> Strict s -> same_denoms (st_params s) P' -> covers s P' -> wf_run (set_params s P') ops ->
+    Inv (run (set_params s P') ops) /\ Strict (run (set_params s P') ops).
 Proof. exact run_after_compatible_param_change. Qed.
 Print Assumptions inv_C04_after_compatible_param_change.
+
+(** inv_C04_along_every_history: the parameter-independent clauses hold along EVERY history whose accepted
+    parameter changes keep the supported denoms ([wf_core_run]: no condition on the new VALUES - limits may
+    be cut below the usage, time-based limits, periods, flags, deputies, fees and bounds changed at will,
+    between any messages and blocks): escrow = open contracts, the three counters = the sums, bank supply =
+    current, outgoing <= current, queue <-> open contracts, per-contract log, and no open contract at or past
+    its expiration height.  (Htlc/CoreHist.v: each such state is shadowed by one with relaxed limits that
+    satisfies the full invariant, and every accepted operation has the same effect on both.) *)
+Theorem inv_C04_along_every_history :
+  forall P b t0 ops, params_ok P -> escrow_empty b -> wf_core_run (init P b t0) ops ->
+    InvCore (reachable P b t0 ops) /\ Strict (reachable P b t0 ops).
+Proof. exact core_reachable_lemma. Qed.
+Print Assumptions inv_C04_along_every_history.
+
+(** non-vacuity: a history with an incompatible limit cut (not a [wf_run] history): the pending incoming
+    claim is rejected afterwards, the transfer is refunded at expiry *)
+Example c04_history_with_incompatible_change :
+  let s0 := init exP exB (ts0 * ns) in
+  wf_core_run s0 exOps3 /\ ~ wf_run s0 exOps3
+  /\ map (fun n => step_ok (run s0 (firstn n exOps3)) (nth n exOps3 (Adv []))) [0; 1; 2; 3]%nat = [true; true; false; true]
+  /\ option_map c_state (get id2 (st_contracts (run s0 exOps3))) = Some Refunded.
+Proof. exact exOps3_facts. Qed.
+
+(** the sums survive any SEQUENCE of parameter changes keeping the denoms, and the whole invariant is
+    restored by the first change whose limits cover the usage again (e.g. the authority undoes a cut) *)
+Theorem inv_C04_after_param_changes :
+  forall Ps s, InvCore s -> (forall P', In P' Ps -> same_denoms (st_params s) P') -> InvCore (fold_left set_params Ps s).
+Proof. exact inv_core_after_param_changes. Qed.
+Print Assumptions inv_C04_after_param_changes.
+
+Theorem inv_C04_restored_by_covering_change :
+  forall s P', InvCore s -> Strict s -> same_denoms (st_params s) P' -> covers s P' ->
+    Inv (set_params s P') /\ Strict (set_params s P').
+Proof. exact inv_restored_by_covering_change. Qed.
+Print Assumptions inv_C04_restored_by_covering_change.
 
 Theorem raising_limits_is_compatible :
   forall s P', Inv s ->
@@ -189,19 +223,29 @@ Print Assumptions c04_model_passes_check.
 (** its hypotheses hold of a concrete case built from the model's run of the example history *)
 Example c04_model_passes_check_nonvacuous :
   hyps_b exCase = true /\ table_ok exCase /\ Vw exCase 5 (case_init exCase) 0 (k_obs0 exCase)
-  /\ trace_ok exCase 5 (case_init exCase) (k_obs0 exCase) (k_steps exCase) /\ length (k_steps exCase) = 13%nat.
+  /\ trace_ok exCase 5 (case_init exCase) (k_obs0 exCase) (k_steps exCase) /\ length (k_steps exCase) = 16%nat.
 Proof. split; [exact exCase_hyps|]. split; [exact exCase_table|]. split; [exact exCase_init_view|]. split; [exact exCase_trace|reflexivity]. Qed.
 
 (** ** Non-vacuity: the concrete history of [Htlc/Examples.v] satisfies the hypotheses and reaches
     non-trivial values of every counter (an incoming transfer of 200 is pending, then completed;
     an outgoing one of 50 is pending, then refunded). *)
-Example c04_hypotheses_satisfiable : params_ok exP /\ escrow_empty exB /\ Forall wf_op exOps.
+Example c04_hypotheses_satisfiable : params_ok exP /\ escrow_empty exB /\ wf_run (init exP exB (ts0 * ns)) exOps.
 Proof.
   split; [|split].
   - repeat constructor; simpl; lia.
   - intros d. reflexivity.
-  - repeat constructor; simpl; discriminate.
+  - apply wf_run_b_sound. vm_compute. reflexivity.
 Qed.
+
+(** a history WITH parameter changes satisfies the hypotheses: the authority's change raises the limits
+    while an incoming transfer is completed and an outgoing one is pending (compatible), a stranger's
+    and an invalid change are rejected; afterwards the raised set is in force *)
+Example c04_history_with_param_changes :
+  wf_run (init exP exB (ts0 * ns)) exOps2
+  /\ map (fun n => step_ok (reachable exP exB (ts0 * ns) (firstn n exOps2)) (nth n exOps2 (Adv []))) [7; 8; 9]%nat
+     = [true; false; false]
+  /\ st_params (reachable exP exB (ts0 * ns) exOps2) = exRaise.
+Proof. split; [apply wf_run_b_sound; vm_compute; reflexivity|]. split; vm_compute; reflexivity. Qed.
 
 Example c04_history_counters :
   map (fun n => let s := reachable exP exB (ts0 * ns) (firstn n exOps) in
